@@ -101,39 +101,53 @@ def folds(rep, F, ex):
 
 
 def polygon_area(rep, F, ex):
-    rep.rule("R5.2", "Polygon::signed_area: sign taken from the exterior ring; holes subtracted by absolute value one by one: ±(|A0| - Σ|Ai|)")
+    """R5.2 on a polygon with two holes (exact unrolling, loop or fold alike): with the ring areas A_e, A_0, A_1 as the only unknowns the result is
+    evaluated on integer assignments and must equal sign(A_e) * (|A_e| - |A_0| - |A_1|), for every winding of every ring."""
+    import itertools
+    from ..evalterm import ArithEval, NoModel
+    rep.rule("R5.2", "Polygon::signed_area (two holes, exact unrolling, integer witnesses for the ring areas): sign(A_ext) * (|A_ext| - Σ|A_hole|) for every winding of every ring")
     try:
         fn = F.impl_method(AREA, r"^%spolygon::Polygon<T>$" % GT, None, "signed_area", crates=("geo",))
-        ps = single(ex, fn)
+        PG, LS = GT + "polygon::Polygon", GT + "line_string::LineString"
+        ring = lambda n: ("field", ("deref", ("arg", 1)), n)
+        pg = ("&", ("adt", PG, "Polygon", (ring("ext"), ("call", "vec!", (("array", (ring("h0"), ring("h1"))),)))))
+        ex2 = Symex(F, no_inline=[r"area::get_linestring_area$", r"area::twice_signed_ring_area$"], inline_crates=("geo", "geo_types"), loop_bound=6, concrete_iters=True)
+        paths = ex2.run(fn, args=[pg])
     except (KeyError, Unanalysable) as e:
         rep.bad("R5.2", "anchor", str(e))
         return
-    ext = "get_linestring_area(exterior(a1))"
-    problems = []
-    seen = set()
-    for p in ps:
-        atoms = [(bare(t), v) for t, v in p.pc]
-        r = bare(p.ret)
-        neg = [v for s, v in atoms if s == "(%s < zero())" % ext]
-        if len(atoms) != 1 or not neg:
-            problems.append("the sign is not decided by `exterior area < 0` alone (%s)" % atoms[:2])
+    if any(p.kind != "ret" for p in paths):
+        rep.bad("R5.2", "polygon-signed-area", "a path does not return", where=fn.loc())
+        return
+    n = 0
+    for ae, a0, a1_ in itertools.product((-5, 5, 0), (-2, 0, 2), (-1, 1, 0)):
+        if ae == 0 and (a0 or a1_):
             continue
-        body = lam_body(ex, p.ret)
-        core = re.sub(r"^neg\((.*)\)$", r"\1", r) if neg[0] == 1 else r
-        is_neg = r.startswith("neg(")
-        if is_neg != (neg[0] == 1):
-            problems.append("result %s negated when the exterior area is %s" % ("is" if is_neg else "is not", "negative" if neg[0] else "non-negative"))
-        if not (core.startswith("fold(") and "interiors(a1)" in core and "abs(%s)" % ext in core):
-            problems.append("the hole fold does not start from |exterior area| over all interiors: %s" % core[:120])
-        if body != "sub(bound(0), abs(get_linestring_area(bound(1))))":
-            problems.append("a hole is not subtracted by its absolute area: step is %s" % body)
-        seen.add(neg[0])
-    if seen != {0, 1}:
-        problems.append("missing sign branch")
-    if problems:
-        rep.bad("R5.2", "polygon-signed-area", problems[0], where=fn.loc())
-    else:
-        rep.ok("R5.2", "polygon-signed-area", sample="±(|A_ext| − Σ|A_hole|), sign from A_ext < 0")
+        vals = {"ext": ae, "h0": a0, "h1": a1_}
+
+        def area_sym(t):
+            if (t[1].endswith("get_linestring_area") or t[1].endswith("twice_signed_ring_area")) and t[2]:
+                m_ = re.search(r"a1\.(ext|h0|h1)", bare(t[2][0]))
+                if m_:
+                    return vals[m_.group(1)] * (2 if t[1].endswith("twice_signed_ring_area") else 1)
+            return None
+        ev = ArithEval(F, {}, area_sym)
+        try:
+            hit = ev.select_path(paths)
+            if len(hit) != 1:
+                rep.bad("R5.2", "polygon-signed-area", "ring areas %s select %d rows" % (vals, len(hit)), where=fn.loc())
+                return
+            got = ev.ev(hit[0].ret)
+        except (NoModel, TypeError) as e:
+            rep.bad("R5.2", "polygon-signed-area", "the result is not an arithmetic function of the ring areas (%s)" % e, where=fn.loc())
+            return
+        want = (abs(ae) - abs(a0) - abs(a1_)) * (-1 if ae < 0 else 1)
+        n += 1
+        if got != want:
+            rep.bad("R5.2", "polygon-signed-area", "with ring areas exterior %s, holes %s and %s the signed area is %s, expected %s (sign of the exterior times |exterior| minus the absolute hole areas): "
+                    "holes of mixed winding must not cancel each other" % (ae, a0, a1_, got, want), where=fn.loc())
+            return
+    rep.ok("R5.2", "polygon-signed-area[%d assignments]" % n, sample="±(|A_ext| − Σ|A_hole|), sign from A_ext")
     # get_linestring_area = twice / 2
     try:
         g = F.one(r"^geo::algorithm::area::get_linestring_area$", crates=("geo",))
@@ -149,66 +163,59 @@ def polygon_area(rep, F, ex):
 
 
 def ring_area(rep, F):
-    rep.rule("R5.3", "twice_signed_ring_area: fewer than 3 coordinates or an unclosed ring give 0; every segment is shifted by one loop-invariant coordinate of the ring (both ends) before Line::determinant; determinant = x1*y2 - y1*x2")
+    """R5.3 on rings of 2, 3, 4 and 5 coordinates (exact unrolling, helpers inlined): an unclosed or too short ring gives zero; for a closed
+    ring the result, as a polynomial in the coordinates (with the closing coordinate identified with the first), equals the shoelace sum
+    Σ (x_i y_{i+1} - x_{i+1} y_i) — whatever loop-invariant shift the implementation conditions the segments with."""
+    rep.rule("R5.3", "twice_signed_ring_area (2..5 coordinates, exact unrolling): 0 for short / unclosed rings; for closed rings the polynomial identity with the shoelace sum (any conditioning shift cancels)")
     try:
         fn = F.one(r"^geo::algorithm::area::twice_signed_ring_area$", crates=("geo",))
-        ex = Symex(F, no_inline=[r"Line::<T>::determinant$", r"MapCoords.*::map_coords$", r"::map_coords$"], loop_bound=1, inline_crates=("geo", "geo_types"))
-        paths = ex.run(fn)
-    except (KeyError, Unanalysable) as e:
+    except KeyError as e:
         rep.bad("R5.3", "anchor", str(e))
         return
-    rets = [p for p in paths if p.kind == "ret"]
-    guards = {"short": False, "open": False}
-    step = None
-    for p in rets:
-        atoms = [(bare(t), v) for t, v in p.pc]
-        r = bare(p.ret)
-        if r == "zero()":
-            for s, v in atoms:
-                if re.search(r"len\(a1\.0\) < 3\)", s) and v == 1:
-                    guards["short"] = True
-                if re.search(r"first\(.*\).*last\(|unwrap\(first", s) and ("==" in s or "ne(" in s):
-                    guards["open"] = True
-        nexts = [v for t, v in p.pc if t[0] == "discr" and isinstance(t[1], tuple) and t[1][0] == "call" and t[1][1].endswith("::next")]
-        if nexts == [1, 0]:
-            step = p
-    if not guards["short"]:
-        rep.bad("R5.3", "guard-short", "no `len < 3 -> 0` guard", where=fn.loc())
-    else:
-        rep.ok("R5.3", "guard-short")
-    if step is None:
-        rep.bad("R5.3", "step", "no single-segment path found", where=fn.loc())
-        return
-    r = step.ret
-    rs = bare(r)
-    # add(zero(), determinant(map_coords(segment, closure[shift])))
-    m = re.match(r"^add\(zero\(\), determinant\(map_coords\((.*), closure()\[(.*)\]\)\)\)$", rs)
-    if not m:
-        rep.bad("R5.3", "step-shape", "the per-segment step is %s, expected tmp + determinant(segment shifted)" % rs[:160], where=fn.loc())
-        return
-    cap = m.group(3)
-    if not re.match(r"^a1\.0\[0\]$|^a1\.0\[\d+\]$", cap):
-        rep.bad("R5.3", "shift-source", "the conditioning shift is %s, not a loop-invariant coordinate of the ring" % cap[:80], where=fn.loc())
-    else:
-        cls = find_closures(r, [])
-        lam = Lam(ex, cls[-1], 1)
-        body = bare(lam.paths[0].ret) if lam.paths else ""
-        if re.match(r"^sub\(bound\(0\), a1\.0\[\d+\]\)$", body) or re.match(r"^Coord::Coord\(sub\(bound\(0\)\.x, (a1\.0\[\d+\])\.x\), sub\(bound\(0\)\.y, \1\.y\)\)$", body):
-            rep.ok("R5.3", "shift-both-ends", sample={"shift": cap, "map": body})
-        else:
-            rep.bad("R5.3", "shift-closure", "segment coordinates are mapped by %s, not c - shift" % body[:100], where=fn.loc())
-    try:
-        d = F.one(r"^geo_types::geometry::line::Line::<T>::determinant$", crates=("geo_types",))
-        ps = [p for p in Symex(F, inline_crates=("geo_types",)).run(d) if p.kind == "ret"]
-        got = from_term(ps[0].ret, lambda t: show(t).replace("&", "").replace("*", ""))
-        want = R(sym("a1.start.x")) * R(sym("a1.end.y")) - R(sym("a1.start.y")) * R(sym("a1.end.x"))
-        if got.equals(want):
-            rep.ok("R5.3", "determinant")
-        else:
-            rep.bad("R5.3", "determinant", "Line::determinant is %s" % show_poly(got.n), where=d.loc())
-    except (KeyError, Unanalysable, ValueError, IndexError) as e:
-        rep.bad("R5.3", "determinant:anchor", str(e))
+    LS = GT + "line_string::LineString"
+    for N in (2, 3, 4, 5):
+        elems = tuple(("index", ("field", ("deref", ("arg", 1)), "0"), ("const", k)) for k in range(N))
+        ring = ("&", ("adt", LS, "LineString", (("call", "vec!", (("array", elems),)),)))
+        try:
+            ex = Symex(F, inline_crates=("geo", "geo_types"), loop_bound=N + 3, concrete_iters=True)
+            ex.assume_reflexive = True
+            ps = ex.run(fn, args=[ring])
+        except Unanalysable as e:
+            rep.bad("R5.3", "unanalysable", str(e), where=fn.loc())
+            return
 
+        def leaf(t, N=N):
+            s_ = show(t).replace("&", "").replace("*", "")
+            return s_.replace("a1.0[%d]" % (N - 1), "a1.0[0]")
+        for p in ps:
+            if p.kind != "ret":
+                rep.bad("R5.3", "paths", "a %s path for a ring of %d coordinates" % (p.kind, N), where=fn.loc())
+                return
+            atoms = [(bare(t), v) for t, v in p.pc]
+            closed = None
+            for a_, v in atoms:
+                if re.match(r"^\(a1\.0\[(0|%d)\] == a1\.0\[(0|%d)\]\)$" % (N - 1, N - 1), a_):
+                    closed = v
+                else:
+                    rep.bad("R5.3", "foreign-decision", "the ring area depends on `%s`" % a_[:100], where=fn.loc())
+                    return
+            try:
+                got = from_term(p.ret, leaf)
+            except ValueError as e:
+                rep.bad("R5.3", "non-polynomial", "the result for %d coordinates is not a polynomial in the coordinates (%s)" % (N, e), where=fn.loc())
+                return
+            if N < 3 or closed == 0:
+                want = R(P(0))
+            else:
+                want = R(P(0))
+                for k in range(N - 1):
+                    a, b = k, (k + 1) % (N - 1) if k + 1 == N - 1 else k + 1
+                    want = want + R(sym("a1.0[%d].x" % a)) * R(sym("a1.0[%d].y" % b)) - R(sym("a1.0[%d].x" % b)) * R(sym("a1.0[%d].y" % a))
+            if not got.equals(want):
+                rep.bad("R5.3", "shoelace", "for a %s ring of %d coordinates twice the signed area is %s, expected the shoelace sum %s" % (
+                    "closed" if closed != 0 else "short / unclosed", N, show_poly(got.n)[:160], show_poly(want.n)[:120]), where=fn.loc())
+                return
+    rep.ok("R5.3", "shoelace-identity[2..5 coordinates]")
 
 def simple_areas(rep, F, ex):
     rep.rule("R5.4", "Rect area = width*height (both forms); Triangle signed area = (sum of the determinants of its three edges) / 2")
